@@ -240,6 +240,12 @@ def stepD (st : DSt) (fs : List String) : DSt × String :=
       let tok := wrapFirst path ttl
       (some { st := initW true 1 [], cleanup := [], chain := some tok }, showInfo tok.handed)
     | none => (st, "bad-op")
+  | ["nslast", n, k] =>
+    -- the n-th use of a root-namespace token is a request into a child namespace: the use step counts it wherever the
+    -- request goes, the deferred revocation works in the TOKEN's namespace (finding F55, repaired): revoked
+    match n.toNat?, k.toNat? with
+    | some n, some k => if n = 0 ∨ k ≥ n then (st, "bad-op") else (st, "ok|token:gone")
+    | _, _ => (st, "bad-op")
   | ["sealdenied", n] =>
     -- n-1 leased uses through handleRequest, then a denied sys/seal (Core.sealInitCommon) as the n-th use: the use step
     -- counts it, so the token has spent its n uses: revoked, with the n-1 leases it obtained (`C19.spent_token_revoked_any_entry`)
